@@ -782,6 +782,20 @@ func suiteLocals(o *Out, thorough bool, seed int64) {
 			}
 		}
 	}
+	// spreading an array over a variadic tail (with and without fixed arguments in front) builds a NEW argument list:
+	// the array - a caller's slice with spare capacity, a list bound to a local, a literal - is the same afterwards
+	{
+		h3 := hosts + ";3:0:1:2:0:s,a:Ii:3;4:1:1:2:0:a,a:Ii:4"
+		d := wmap("xs", "A3 "+ws("a")+" "+ws("b")+" "+ws("c"), "one", "A1 Ii:1", "none", "A0", "nest", "A2 A2 Ii:1 Ii:2 A1 Ii:3", "f", "H1", "g", "H2", "lab", "H3", "cl", "H4")
+		for _, t := range []string{"lab('p', xs...), xs", "lab('p', xs...), lab('q', xs...), xs", "$a = ['x', 'y', 'z'], lab('p', $a...), $a", "$a = xs, lab('p', $a...), [$a, xs]", "g(xs...), xs", "cl('p', xs...), xs",
+			"lab('p', one...), one", "lab('p', none...), none", "lab('p', nest[0]...), nest", "$a = [1, 2], $b = $a, lab('p', $a...), $b", "lab('p', [1, 2, 3]...)", "$a = ['x'], lab('p', $a...), lab('q', $a...), $a",
+			"cl(xs, xs...), xs", "lab(xs[0], xs...), xs", "g($a = [1, 2, 3]...), g($a...), $a", "lab('p', xs...) + lab('q', one...), [xs, one]", "f(xs, lab('p', xs...)), xs"} {
+			line := fmt.Sprintf("EV\t%s\t0\t%s\t%s", hx([]byte(t)), h3, d)
+			emitEval(o, t, 0, h3, d, true)
+			snapshotOracle(o, line, t, h3, d)
+		}
+		o.Stat("spread-then-reread")
+	}
 	// a local has the VALUE of the right-hand side, whatever its size: numbers beyond the 34 digits and the exponent
 	// range that computed numbers have (long literals, decimals handed in by the caller, and everything that passes
 	// them on unchanged: unary plus, max, min, finite, ??, ||, &&, a conditional branch) are bound digit for digit
@@ -1270,6 +1284,7 @@ func suiteBridge(o *Out, thorough bool, seed int64) {
 		o.Stat("non-function-callees-with-effects")
 	}
 	formatOracle(o)
+	ifaceParamOracle(o)
 	// exhaustive: every signature with 0..1 parameters (x ctx x variadic) x every argument list of length 0..2
 	for _, ctx := range []bool{false, true} {
 		for _, variadic := range []bool{false, true} {
@@ -1928,4 +1943,74 @@ func formatOracle(o *Out) {
 		}
 	}
 	o.Stat("format oracle")
+}
+
+// ifaceParamOracle: "null to nil for interface parameters" for interface types that HAVE methods (fmt.Stringer, error,
+// a user interface) - the model's signatures know the empty interface only.  A null argument arrives as the nil
+// interface value, exactly one invocation; a value that implements the interface arrives as it is; one that does not
+// makes the call fail without an invocation.
+type namer interface{ Name() string }
+
+func ifaceParamOracle(o *Out) {
+	type call struct{ args []interface{} }
+	var calls []call
+	rec := func(a ...interface{}) { calls = append(calls, call{a}) }
+	data := map[string]interface{}{
+		"describe": func(s fmt.Stringer) (string, error) { rec(s); return "ok", nil },
+		"orElse":   func(n int, cause error) (int, error) { rec(n, cause); return n, nil },
+		"count": func(xs ...fmt.Stringer) (int, error) {
+			a := make([]interface{}, len(xs))
+			for i, x := range xs {
+				a[i] = x
+			}
+			rec(a...)
+			return len(xs), nil
+		},
+		"named": func(n namer, s string) (string, error) { rec(n, s); return s, nil },
+		"when":  time.Date(2024, 1, 2, 3, 4, 5, 0, time.UTC), "np": (*int)(nil), "txt": "text",
+	}
+	isNilIface := func(v interface{}) bool { return v == nil }
+	for _, c := range []struct {
+		text  string
+		nargs int
+		nils  []int // argument positions that must be the nil interface value
+		fails bool  // the call must fail without an invocation
+	}{
+		{"describe(null)", 1, []int{0}, false}, {"describe(missing)", 1, []int{0}, false}, {"describe(this.nope)", 1, []int{0}, false},
+		{"orElse(7.9, null)", 2, []int{1}, false}, {"orElse(7.9, missing)", 2, []int{1}, false}, {"count(null)", 1, []int{0}, false}, {"count(1.5, null, missing)", 3, []int{1, 2}, false},
+		{"count([null, 2]...)", 2, []int{0}, false}, {"count()", 0, nil, false}, {"named(null, 'x')", 2, []int{0}, false}, {"named(missing, txt)", 2, []int{0}, false},
+		{"describe(1.5)", 1, nil, false}, {"describe(when)", 1, nil, false}, {"count(1, 2, when)", 3, nil, false},
+		{"describe(txt)", 0, nil, true}, {"describe(np)", 0, nil, true}, {"describe(true)", 0, nil, true}, {"orElse(1, txt)", 0, nil, true}, {"named(1.5, 'x')", 0, nil, true}, {"describe()", 0, nil, true}, {"describe(null, null)", 0, nil, true},
+	} {
+		calls = nil
+		line := "NOP\tifaceparam\t" + hx([]byte(c.text))
+		o.Case(line, "-", true)
+		src, err := formula.ParseSourceCode([]byte(c.text))
+		if err != nil {
+			o.Fail(line, "does not parse: "+err.Error())
+			continue
+		}
+		r := formula.NewRunner()
+		r.SetThis(data)
+		pan, msg := protect(func() { _, err = r.Resolve(context.Background(), src.Expression) })
+		switch {
+		case pan:
+			o.Fail(line, fmt.Sprintf("%q panicked: %s", c.text, msg))
+		case c.fails:
+			if err == nil || len(calls) != 0 {
+				o.Fail(line, fmt.Sprintf("%q: an argument that does not fit the interface parameter (or a wrong argument count) must fail without a call: error %v, %d invocations", c.text, err, len(calls)))
+			}
+		default:
+			if err != nil || len(calls) != 1 || len(calls[0].args) != c.nargs {
+				o.Fail(line, fmt.Sprintf("%q: required exactly one invocation with %d arguments: error %v, invocations %v", c.text, c.nargs, err, calls))
+				continue
+			}
+			for _, i := range c.nils {
+				if !isNilIface(calls[0].args[i]) {
+					o.Fail(line, fmt.Sprintf("%q: argument %d must arrive as the nil interface value, arrived as %#v", c.text, i, calls[0].args[i]))
+				}
+			}
+		}
+	}
+	o.Stat("interface parameters with methods")
 }
